@@ -277,11 +277,14 @@ def scope_scenarios(run: Run, model: PyModel, tree0) -> None:
         T("h1_section", kids=[header_tree(1, H[1], "Dated 2024-03-05", 16), block(item_tree("-", "alpha beta", None, 17), item_tree("-", "milk", None, 18)),
                               T("h2_section", kids=[header_tree(2, H[2], "Sub 2024-04-06", 19), block(item_tree("-", "gamma", None, 20))]),
                               T("h2_section", kids=[header_tree(2, H[2], "Undated sub", 21), block(item_tree("-", "delta epsilon", None, 22))])]),
-        T("h1_section", kids=[header_tree(1, H[1], "Undated", 23), block(item_tree("-", "zeta", None, 24))]),
+        T("h1_section", kids=[header_tree(1, H[1], "Undated", 23), block(item_tree("-", "zeta", None, 24), item_tree("-", "https://example.com/x", None, 25))]),
+        # a dated header directly after an item that contains no identifier at all (a bare URL): nothing of that item may capture the header's date
+        T("h1_section", kids=[header_tree(1, H[1], "2024-05-07 Tuesday", 26), block(item_tree("-", "eta theta", None, 27), item_tree("-", "https://example.com/y", None, 28)),
+                              T("h2_section", kids=[header_tree(2, H[2], "2024-06-08 later", 29), block(item_tree("-", "iota", None, 30))])]),
     ]
-    dates = {3: "20240101", 6: "20240101", 7: "20240101", 9: "20240101", 11: "20240101", 13: "20240101", 15: "20240101", 17: "20240305", 18: "20240305", 20: "20240406", 22: "20240305", 24: "20240101"}
+    dates = {3: "20240101", 6: "20240101", 7: "20240101", 9: "20240101", 11: "20240101", 13: "20240101", 15: "20240101", 17: "20240305", 18: "20240305", 20: "20240406", 22: "20240305", 24: "20240101", 25: "20240101", 27: "20240507", 28: "20240507", 30: "20240608"}
     want = {3: ({"T", "X"}, {"k": "v1"}), 6: ({"T", "X", "S"}, {"k": "v2"}), 7: ({"T", "X", "S"}, {"k": "v2"}), 9: ({"T", "X", "S", "U"}, {"k": "v2"}), 11: ({"T", "X", "S"}, {"k": "v2"}),
-            13: ({"T", "X"}, {}), 15: ({"T"}, {}), 17: ({"T"}, {}), 18: ({"T"}, {}), 20: ({"T"}, {}), 22: ({"T"}, {}), 24: ({"T"}, {})}
+            13: ({"T", "X"}, {}), 15: ({"T"}, {}), 17: ({"T"}, {}), 18: ({"T"}, {}), 20: ({"T"}, {}), 22: ({"T"}, {}), 24: ({"T"}, {}), 25: ({"T"}, {}), 27: ({"T"}, {}), 28: ({"T"}, {}), 30: ({"T"}, {})}
     D = Driver(model)
     st = State()
     try:
@@ -298,7 +301,7 @@ def scope_scenarios(run: Run, model: PyModel, tree0) -> None:
         run.undecided("C02.R2", "ZorgFileCompiler", "scope scenario: " + (f"raises {raised.exc}" if raised is not None else "; ".join(st.imprecise[:2])))
         return
     by_line = {n.get("line_no"): n for n in D.notes}
-    run.floor("notes of the scope scenario", len(by_line), 12)
+    run.floor("notes of the scope scenario", len(by_line), 16)
     for ln, (projects, props) in want.items():
         n = by_line.get(ln)
         if n is None:
@@ -307,6 +310,10 @@ def scope_scenarios(run: Run, model: PyModel, tree0) -> None:
         got_p = n.get("projects")
         got_k = n.get("properties")
         ok_p = isinstance(got_p, list) and set(got_p) == projects
+        dup = sorted({x for x in got_p if got_p.count(x) > 1}) if isinstance(got_p, list) else []
+        run.check("C02.R2", f"scope scenario, line {ln}: no project is listed twice", not dup, "ZorgFileCompiler", f"line {ln}: duplicate projects {dup}",
+                  f"the note on line {ln} lists {dup} more than once in {got_p}: a value written at several enclosing scopes is not merged (the index's tag link tables are unique per note and tag: "
+                  "indexing such a page fails with an integrity error although the page is valid)", file=FILE)
         miss = sorted(projects - set(got_p)) if isinstance(got_p, list) else []
         extra = sorted(set(got_p) - projects) if isinstance(got_p, list) else []
         rid = "C02.R3" if miss else "C02.R2"
